@@ -183,7 +183,7 @@ def _oracle(fm, model, route):
             bad('is_root', sf[0])
         if f.is_leaf() != (not sf[1]):
             bad('is_leaf', sf[0])
-        if f.get_relations() is not f.relations or len(f.get_relations()) != len(sf[1]):
+        if len(f.get_relations()) != len(sf[1]) or any(x is not y for x, y in zip(f.get_relations(), f.relations)):
             bad('feature.get_relations', sf[0])
     # --- relation classification
     relkind = {}
@@ -245,7 +245,7 @@ def _oracle(fm, model, route):
             bad('model.' + meth, {'got': [f.name for f in got], 'want': want})
     # --- constraints
     ctcs = fm.get_constraints()
-    if ctcs is not fm.ctcs or len(ctcs) != len(model[1]):
+    if len(ctcs) != len(model[1]) or any(x is not y for x, y in zip(ctcs, fm.ctcs)):
         bad('get_constraints', len(ctcs))
         return out
     ref = [_ref_ctc_kinds(t) for _n, t in model[1]]
